@@ -300,6 +300,49 @@ Theorem C10_dtls13_labels_nodup :
 Proof. exact dtls13_labels_nodup. Qed.
 Print Assumptions C10_dtls13_labels_nodup.
 
+(* ---------------- DTLS 1.3 key-update chain ---------------- *)
+
+(* application_traffic_secret_{n+1} = HKDF-Expand-Label(application_traffic_secret_n, "traffic upd", "",
+   Hash.length) for every n (RFC 8446 7.2) *)
+Theorem C10_traffic_update_chain : forall H secret0 n,
+  traffic_secret_n H secret0 (S n) =
+  hkdf_expand_label H (traffic_secret_n H secret0 n) lbl_traffic_upd [] (h_len H).
+Proof. exact traffic_update_chain. Qed.
+Print Assumptions C10_traffic_update_chain.
+
+(* stepping the current secret once per key update yields secret n after n updates *)
+Theorem C10_traffic_secret_n_iter : forall H secret0 n,
+  Nat.iter n (key_update_step H) secret0 = traffic_secret_n H secret0 n.
+Proof. exact traffic_secret_n_iter. Qed.
+Print Assumptions C10_traffic_secret_n_iter.
+
+(* m further updates from generation n give generation n+m *)
+Theorem C10_traffic_secret_n_add : forall H secret0 n m,
+  traffic_secret_n H (traffic_secret_n H secret0 n) m = traffic_secret_n H secret0 (n + m).
+Proof. exact traffic_secret_n_add. Qed.
+Print Assumptions C10_traffic_secret_n_add.
+
+(* key / iv / sn of generation n are HKDF-Expand-Label of secret n under "key" / "iv" / "sn" *)
+Theorem C10_generation_keys_from_secret : forall H secret0 n kl,
+  generation_keys H secret0 n kl =
+  [traffic_secret_n H secret0 n;
+   hkdf_expand_label H (traffic_secret_n H secret0 n) lbl_key [] kl;
+   hkdf_expand_label H (traffic_secret_n H secret0 n) lbl_iv [] 12;
+   hkdf_expand_label H (traffic_secret_n H secret0 n) lbl_sn [] kl].
+Proof. exact generation_keys_from_secret. Qed.
+Print Assumptions C10_generation_keys_from_secret.
+
+Theorem C10_generation_keys_step : forall H secret0 n kl,
+  generation_keys H secret0 (S n) kl =
+  generation_keys H (next_traffic_secret H (traffic_secret_n H secret0 n)) 0 kl.
+Proof. exact generation_keys_step. Qed.
+Print Assumptions C10_generation_keys_step.
+
+Theorem C10_generation_keys_lengths : forall H secret0 n kl, hash_wf H ->
+  map (@length N) (generation_keys H secret0 (S n) kl) = [h_len H; kl; 12%nat; kl].
+Proof. exact generation_keys_lengths. Qed.
+Print Assumptions C10_generation_keys_lengths.
+
 (* ---------------- suites ---------------- *)
 
 (* tie to the regenerated facts: every suite registered in the current tree has RFC parameters in
